@@ -20,25 +20,25 @@ theorem Scalar.R_ne_zero : Scalar.R ≠ 0 := by
   unfold Scalar.R
   rw [Ne, ZMod.natCast_eq_zero_iff]
   intro h
-  have := Nat.Coprime.eq_one_of_dvd coprime_L_R h
+  have := Nat.Coprime.eq_one_of_dvd Scalar.coprime_L_R h
   have h2 : (1 : Nat) < L := by decide
   omega
 
-theorem natCast_of_mod_eq {a b : Nat} (h : a % L = b % L) : (a : ZMod L) = (b : ZMod L) :=
+theorem sc_natCast_of_mod_eq {a b : Nat} (h : a % L = b % L) : (a : ZMod L) = (b : ZMod L) :=
   (ZMod.natCast_eq_natCast_iff' a b L).2 h
 
 /-- Montgomery-form value from a congruence `eval r · R ≡ v` -/
-theorem toZ_of_mul_R (r : W4) (v : ZMod L) (h : (eval r : ZMod L) * Scalar.R = v) :
+theorem Scalar.toZ_of_mul_R (r : W4) (v : ZMod L) (h : (eval r : ZMod L) * Scalar.R = v) :
     Scalar.toZ r = v * Scalar.R⁻¹ * Scalar.R⁻¹ := by
   unfold Scalar.toZ
   rw [← h, mul_inv_cancel_right₀ Scalar.R_ne_zero]
 
-theorem toZ_inj {s t : W4} (hs : Inv s) (ht : Inv t) : Scalar.toZ s = Scalar.toZ t ↔ eval s = eval t := by
+theorem Scalar.toZ_inj {s t : W4} (hs : Inv s) (ht : Inv t) : Scalar.toZ s = Scalar.toZ t ↔ eval s = eval t := by
   unfold Scalar.toZ
   constructor
   · intro h
     have h' := mul_right_cancel₀ (inv_ne_zero Scalar.R_ne_zero) h
-    rw [ZMod.natCast_eq_natCast_iff', Nat.mod_eq_of_lt (inv_lt hs), Nat.mod_eq_of_lt (inv_lt ht)] at h'
+    rw [ZMod.natCast_eq_natCast_iff', Nat.mod_eq_of_lt (Scalar.inv_lt hs), Nat.mod_eq_of_lt (Scalar.inv_lt ht)] at h'
     exact h'
   · intro h; rw [h]
 
@@ -63,7 +63,7 @@ theorem C07_sub (x y : W4) (hx : Inv x) (hy : Inv y) :
   refine ⟨hi, ?_⟩
   show Scalar.toZ (Fiat.fiatScalarSub Scalar.rz x y) = _
   unfold Scalar.toZ
-  have hle : eval y ≤ eval x + L := by have := inv_lt hy; omega
+  have hle : eval y ≤ eval x + L := by have := Scalar.inv_lt hy; omega
   rw [he, ZMod.natCast_mod, Nat.cast_sub hle, Nat.cast_add, ZMod.natCast_self, add_zero, sub_mul]
 
 theorem C07_neg (x : W4) (hx : Inv x) :
@@ -72,7 +72,7 @@ theorem C07_neg (x : W4) (hx : Inv x) :
   refine ⟨hi, ?_⟩
   show Scalar.toZ (Fiat.fiatScalarOpp Scalar.rz x) = _
   unfold Scalar.toZ
-  have hle : eval x ≤ L := by have := inv_lt hx; omega
+  have hle : eval x ≤ L := by have := Scalar.inv_lt hx; omega
   rw [he, ZMod.natCast_mod, Nat.cast_sub hle, ZMod.natCast_self, zero_sub, neg_mul]
 
 theorem C07_mul (x y : W4) (hx : Inv x) (hy : Inv y) :
@@ -80,9 +80,9 @@ theorem C07_mul (x y : W4) (hx : Inv x) (hy : Inv y) :
   obtain ⟨hi, he⟩ := fiatMul_spec Scalar.rz x y hx hy
   refine ⟨hi, ?_⟩
   show Scalar.toZ (Fiat.fiatScalarMul Scalar.rz x y) = _
-  have h := natCast_of_mod_eq he
+  have h := sc_natCast_of_mod_eq he
   rw [Nat.cast_mul, Nat.cast_mul] at h
-  rw [toZ_of_mul_R _ _ h]
+  rw [Scalar.toZ_of_mul_R _ _ h]
   unfold Scalar.toZ
   ring
 
@@ -97,21 +97,21 @@ theorem C07_equal (s t : W4) (hs : Inv s) (ht : Inv t) :
     Scalar.equal s t = if Scalar.toZ s = Scalar.toZ t then 1 else 0 := by
   rw [equal_spec s t hs ht]
   by_cases h : eval s = eval t
-  · rw [if_pos h, if_pos ((toZ_inj hs ht).2 h)]
-  · rw [if_neg h, if_neg (fun h' => h ((toZ_inj hs ht).1 h'))]
+  · rw [if_pos h, if_pos ((Scalar.toZ_inj hs ht).2 h)]
+  · rw [if_neg h, if_neg (fun h' => h ((Scalar.toZ_inj hs ht).1 h'))]
 
 
 /-! ### inversion: the addition chain computes `t^(l-2)` -/
 
 /-- `s` is a valid scalar representing `t^e` -/
-def IsPow (t s : W4) (e : Nat) : Prop := Inv s ∧ Scalar.toZ s = Scalar.toZ t ^ e
+def Scalar.IsPow (t s : W4) (e : Nat) : Prop := Inv s ∧ Scalar.toZ s = Scalar.toZ t ^ e
 
-theorem isPow_self {t : W4} (ht : Inv t) : IsPow t t 1 := ⟨ht, (pow_one _).symm⟩
+theorem Scalar.isPow_self {t : W4} (ht : Inv t) : Scalar.IsPow t t 1 := ⟨ht, (pow_one _).symm⟩
 
-theorem isPow_cast {t s : W4} {e e' : Nat} (h : IsPow t s e) (he : e = e') : IsPow t s e' := he ▸ h
+theorem Scalar.isPow_cast {t s : W4} {e e' : Nat} (h : Scalar.IsPow t s e) (he : e = e') : Scalar.IsPow t s e' := he ▸ h
 
-theorem isPow_mul {t a b : W4} {e f : Nat} (ha : IsPow t a e) (hb : IsPow t b f) :
-    IsPow t (Scalar.mul a b) (e + f) := by
+theorem Scalar.isPow_mul {t a b : W4} {e f : Nat} (ha : Scalar.IsPow t a e) (hb : Scalar.IsPow t b f) :
+    Scalar.IsPow t (Scalar.mul a b) (e + f) := by
   obtain ⟨mi, me⟩ := C07_mul a b ha.1 hb.1
   exact ⟨mi, by rw [me, ha.2, hb.2, pow_add]⟩
 
@@ -127,60 +127,60 @@ theorem pow2k_zero (s : W4) : Scalar.pow2k 0 s = s := rfl
 theorem pow2k_succ (k : Nat) (s : W4) : Scalar.pow2k (k+1) s = Scalar.pow2k k (Scalar.mul s s) := by
   rw [pow2k_unfold, pow2k_unfold]
 
-theorem isPow_pow2k {t : W4} (k : Nat) :
-    ∀ {s : W4} {e : Nat}, IsPow t s e → IsPow t (Scalar.pow2k k s) (e * 2^k) := by
+theorem Scalar.isPow_pow2k {t : W4} (k : Nat) :
+    ∀ {s : W4} {e : Nat}, Scalar.IsPow t s e → Scalar.IsPow t (Scalar.pow2k k s) (e * 2^k) := by
   induction k with
   | zero =>
     intro s e h
     rw [pow2k_zero]
-    exact isPow_cast h (by rw [pow_zero, mul_one])
+    exact Scalar.isPow_cast h (by rw [pow_zero, mul_one])
   | succ k ih =>
     intro s e h
     rw [pow2k_succ]
-    exact isPow_cast (ih (isPow_mul h h)) (by rw [pow_succ]; ring)
+    exact Scalar.isPow_cast (ih (Scalar.isPow_mul h h)) (by rw [pow_succ]; ring)
 
-theorem isPow_step {t s m : W4} {e f : Nat} (k : Nat) (hs : IsPow t s e) (hm : IsPow t m f) :
-    IsPow t (Scalar.mul (Scalar.pow2k k s) m) (e * 2^k + f) :=
-  isPow_mul (isPow_pow2k k hs) hm
+theorem Scalar.isPow_step {t s m : W4} {e f : Nat} (k : Nat) (hs : Scalar.IsPow t s e) (hm : Scalar.IsPow t m f) :
+    Scalar.IsPow t (Scalar.mul (Scalar.pow2k k s) m) (e * 2^k + f) :=
+  Scalar.isPow_mul (Scalar.isPow_pow2k k hs) hm
 
-theorem invert_isPow (t : W4) (ht : Inv t) : IsPow t (Scalar.invert t) (L - 2) := by
-  have h1 := isPow_self ht
-  have htt := isPow_mul h1 h1
-  have h3 := isPow_mul h1 htt
-  have h5 := isPow_mul h3 htt
-  have h7 := isPow_mul h5 htt
-  have h9 := isPow_mul h7 htt
-  have h11 := isPow_mul h9 htt
-  have h13 := isPow_mul h11 htt
-  have h15 := isPow_mul h13 htt
-  have s := isPow_step (127 + 1) h1 h1
-  have s := isPow_step (4 + 1) s h9
-  have s := isPow_step (3 + 1) s h11
-  have s := isPow_step (3 + 1) s h13
-  have s := isPow_step (3 + 1) s h15
-  have s := isPow_step (4 + 1) s h7
-  have s := isPow_step (4 + 1) s h15
-  have s := isPow_step (3 + 1) s h5
-  have s := isPow_step (3 + 1) s h1
-  have s := isPow_step (4 + 1) s h15
-  have s := isPow_step (4 + 1) s h15
-  have s := isPow_step (4 + 1) s h7
-  have s := isPow_step (3 + 1) s h3
-  have s := isPow_step (4 + 1) s h11
-  have s := isPow_step (5 + 1) s h11
-  have s := isPow_step (9 + 1) s h9
-  have s := isPow_step (3 + 1) s h3
-  have s := isPow_step (4 + 1) s h3
-  have s := isPow_step (4 + 1) s h3
-  have s := isPow_step (4 + 1) s h9
-  have s := isPow_step (3 + 1) s h7
-  have s := isPow_step (3 + 1) s h3
-  have s := isPow_step (3 + 1) s h13
-  have s := isPow_step (3 + 1) s h7
-  have s := isPow_step (4 + 1) s h9
-  have s := isPow_step (3 + 1) s h15
-  have s := isPow_step (4 + 1) s h11
-  have s' := isPow_cast s (e' := L - 2) (by decide)
+theorem invert_isPow (t : W4) (ht : Inv t) : Scalar.IsPow t (Scalar.invert t) (L - 2) := by
+  have h1 := Scalar.isPow_self ht
+  have htt := Scalar.isPow_mul h1 h1
+  have h3 := Scalar.isPow_mul h1 htt
+  have h5 := Scalar.isPow_mul h3 htt
+  have h7 := Scalar.isPow_mul h5 htt
+  have h9 := Scalar.isPow_mul h7 htt
+  have h11 := Scalar.isPow_mul h9 htt
+  have h13 := Scalar.isPow_mul h11 htt
+  have h15 := Scalar.isPow_mul h13 htt
+  have s := Scalar.isPow_step (127 + 1) h1 h1
+  have s := Scalar.isPow_step (4 + 1) s h9
+  have s := Scalar.isPow_step (3 + 1) s h11
+  have s := Scalar.isPow_step (3 + 1) s h13
+  have s := Scalar.isPow_step (3 + 1) s h15
+  have s := Scalar.isPow_step (4 + 1) s h7
+  have s := Scalar.isPow_step (4 + 1) s h15
+  have s := Scalar.isPow_step (3 + 1) s h5
+  have s := Scalar.isPow_step (3 + 1) s h1
+  have s := Scalar.isPow_step (4 + 1) s h15
+  have s := Scalar.isPow_step (4 + 1) s h15
+  have s := Scalar.isPow_step (4 + 1) s h7
+  have s := Scalar.isPow_step (3 + 1) s h3
+  have s := Scalar.isPow_step (4 + 1) s h11
+  have s := Scalar.isPow_step (5 + 1) s h11
+  have s := Scalar.isPow_step (9 + 1) s h9
+  have s := Scalar.isPow_step (3 + 1) s h3
+  have s := Scalar.isPow_step (4 + 1) s h3
+  have s := Scalar.isPow_step (4 + 1) s h3
+  have s := Scalar.isPow_step (4 + 1) s h9
+  have s := Scalar.isPow_step (3 + 1) s h7
+  have s := Scalar.isPow_step (3 + 1) s h3
+  have s := Scalar.isPow_step (3 + 1) s h13
+  have s := Scalar.isPow_step (3 + 1) s h7
+  have s := Scalar.isPow_step (4 + 1) s h9
+  have s := Scalar.isPow_step (3 + 1) s h15
+  have s := Scalar.isPow_step (4 + 1) s h11
+  have s' := Scalar.isPow_cast s (e' := L - 2) (by decide)
   exact s'
 
 theorem C07_invert (t : W4) (ht : Inv t) :
@@ -194,5 +194,556 @@ theorem C07_invert (t : W4) (ht : Inv t) :
   · apply eq_inv_of_mul_eq_one_left
     rw [← pow_succ, show L - 2 + 1 = L - 1 by omega]
     exact ZMod.pow_card_sub_one_eq_one h0
+
+/-! ### byte strings: little-endian values -/
+
+/-- every entry is a byte -/
+def Scalar.IsBytes (b : Bytes) : Prop := ∀ i, i < b.size → b[i]! < 256
+
+theorem Scalar.isBytes_all {b : Bytes} (h : Scalar.IsBytes b) (i : Nat) : b[i]! < 256 := by
+  by_cases hi : i < b.size
+  · exact h i hi
+  · have : b[i]! = 0 := by
+      rw [getElem!_def]
+      simp [Array.getElem?_eq_none (Nat.le_of_not_lt hi)]
+    rw [this]; norm_num
+
+theorem sc_getElem!_beyond (b : Bytes) (i : Nat) (hi : b.size ≤ i) : b[i]! = 0 := by
+  rw [getElem!_def]
+  simp [Array.getElem?_eq_none hi]
+
+/-- little-endian value of the `n` bytes starting at `off` -/
+def Scalar.leFrom (b : Bytes) (off : Nat) : Nat → Nat
+  | 0 => 0
+  | n+1 => Scalar.leFrom b off n + b[off + n]! * 256^n
+
+theorem Scalar.leFrom_eq_sum (b : Bytes) (n : Nat) : Scalar.leFrom b 0 n = ∑ i ∈ Finset.range n, b[i]! * 256^i := by
+  induction n with
+  | zero => simp [Scalar.leFrom]
+  | succ n ih => rw [Scalar.leFrom, ih, Finset.sum_range_succ, Nat.zero_add]
+
+theorem Scalar.LE_eq_leFrom (b : Bytes) : Scalar.LE b = Scalar.leFrom b 0 b.size := by
+  rw [Scalar.LE_eq_sum, Scalar.leFrom_eq_sum]
+
+theorem Scalar.leFrom_congr (a b : Bytes) (oa ob n : Nat) (h : ∀ i, i < n → a[oa + i]! = b[ob + i]!) :
+    Scalar.leFrom a oa n = Scalar.leFrom b ob n := by
+  induction n with
+  | zero => rfl
+  | succ n ih =>
+    rw [Scalar.leFrom, Scalar.leFrom, ih (fun i hi => h i (Nat.lt_succ_of_lt hi)), h n (Nat.lt_succ_self n)]
+
+theorem Scalar.leFrom_split (b : Bytes) (off n k : Nat) :
+    Scalar.leFrom b off (n + k) = Scalar.leFrom b off n + 256^n * Scalar.leFrom b (off + n) k := by
+  induction k with
+  | zero => simp [Scalar.leFrom]
+  | succ k ih =>
+    rw [← Nat.add_assoc, Scalar.leFrom, ih, Scalar.leFrom, pow_add, Nat.add_assoc off n k]
+    ring
+
+theorem Scalar.leFrom_succ' (b : Bytes) (off n : Nat) :
+    Scalar.leFrom b off (n + 1) = b[off]! + 256 * Scalar.leFrom b (off + 1) n := by
+  have := Scalar.leFrom_split b off 1 n
+  rw [Nat.add_comm 1 n] at this
+  rw [this]
+  simp [Scalar.leFrom]
+
+theorem Scalar.leFrom_lt (b : Bytes) (hb : Scalar.IsBytes b) (off n : Nat) : Scalar.leFrom b off n < 256^n := by
+  induction n with
+  | zero => simp [Scalar.leFrom]
+  | succ n ih =>
+    rw [Scalar.leFrom, pow_succ]
+    have h1 := Scalar.isBytes_all hb (off + n)
+    have h2 : b[off + n]! * 256^n ≤ 255 * 256^n := Nat.mul_le_mul_right _ (by omega)
+    generalize b[off + n]! * 256^n = X at *
+    generalize 256^n = P at *
+    generalize Scalar.leFrom b off n = A at *
+    omega
+
+theorem Scalar.leFrom_beyond (b : Bytes) (off n : Nat) (h : b.size ≤ off) : Scalar.leFrom b off n = 0 := by
+  induction n with
+  | zero => rfl
+  | succ n ih => rw [Scalar.leFrom, ih, sc_getElem!_beyond b _ (by omega)]; simp
+
+/-- extending past the end adds nothing -/
+theorem Scalar.leFrom_extend (b : Bytes) (n : Nat) (h : b.size ≤ n) : Scalar.leFrom b 0 n = Scalar.leFrom b 0 b.size := by
+  obtain ⟨k, rfl⟩ := Nat.exists_eq_add_of_le h
+  rw [Scalar.leFrom_split, Scalar.leFrom_beyond b (0 + b.size) k (by omega)]
+  simp
+
+/-- byte `i` of the value -/
+theorem Scalar.leFrom_byte (b : Bytes) (hb : Scalar.IsBytes b) (n i : Nat) (hi : i < n) :
+    Scalar.leFrom b 0 n / 256^i % 256 = b[i]! := by
+  obtain ⟨k, rfl⟩ := Nat.exists_eq_add_of_lt hi
+  rw [show i + k + 1 = i + (k + 1) by omega, Scalar.leFrom_split, Scalar.leFrom_succ', Nat.zero_add]
+  have h1 := Scalar.leFrom_lt b hb 0 i
+  have h2 := Scalar.isBytes_all hb i
+  have hP : 0 < 256^i := Nat.pow_pos (by norm_num)
+  rw [Nat.add_comm, Nat.mul_add_div hP, Nat.div_eq_of_lt h1, Nat.add_zero, Nat.add_mul_mod_self_left,
+    Nat.mod_eq_of_lt h2]
+
+
+/-! ### C08: `bytes` -/
+
+/-- a word vector `r` with `eval r · R ≡ eval s` and `eval r < l` is the canonical value of `toZ s` -/
+theorem val_of_fromMont (r s : W4) (hr : Inv r) (h : (eval r * 2^256) % L = eval s % L) :
+    (Scalar.toZ s).val = eval r := by
+  have h' := sc_natCast_of_mod_eq h
+  rw [Nat.cast_mul] at h'
+  have : Scalar.toZ s = (eval r : ZMod L) := by
+    unfold Scalar.toZ
+    rw [← h']
+    exact mul_inv_cancel_right₀ Scalar.R_ne_zero _
+  rw [this, ZMod.val_natCast, Nat.mod_eq_of_lt (Scalar.inv_lt hr)]
+
+theorem sc_zeros_size (n : Nat) : (Bin.zeros n).size = n := by simp [Bin.zeros]
+
+theorem C08_bytes (s : W4) (hs : Inv s) : Scalar.bytes s = Scalar.LEbytes (Scalar.toZ s).val 32 := by
+  obtain ⟨ri, re⟩ := fromMontgomery_spec Scalar.rz s hs
+  rw [val_of_fromMont _ s ri re]
+  exact toBytes_eq _ _ (sc_zeros_size 32) (Scalar.inv_words ri)
+
+theorem Scalar.LEbytes_isBytes (n k : Nat) : Scalar.IsBytes (Scalar.LEbytes n k) := by
+  intro i hi
+  rw [Scalar.LEbytes_size] at hi
+  rw [Scalar.LEbytes_get _ _ _ hi]
+  exact Nat.mod_lt _ (by norm_num)
+
+theorem C08_bytes_isBytes (s : W4) (hs : Inv s) :
+    (Scalar.bytes s).size = 32 ∧ Scalar.IsBytes (Scalar.bytes s) := by
+  rw [C08_bytes s hs]
+  exact ⟨Scalar.LEbytes_size _ _, Scalar.LEbytes_isBytes _ _⟩
+
+theorem Scalar.LE_LEbytes (n k : Nat) (hn : n < 256^k) : Scalar.LE (Scalar.LEbytes n k) = n := by
+  rw [Scalar.LE_eq_leFrom, Scalar.LEbytes_size]
+  have key : ∀ j, j ≤ k → Scalar.leFrom (Scalar.LEbytes n k) 0 j = n % 256^j := by
+    intro j
+    induction j with
+    | zero => intro _; simp [Scalar.leFrom, Nat.mod_one]
+    | succ j ih =>
+      intro hj
+      rw [Scalar.leFrom, ih (by omega), Nat.zero_add, Scalar.LEbytes_get _ _ _ (by omega), pow_succ,
+        Nat.mod_mul, Nat.mul_comm]
+  rw [key k (Nat.le_refl k), Nat.mod_eq_of_lt hn]
+
+/-- the value of `bytes s` is the canonical representative (in particular `< l`) -/
+theorem C08_bytes_LE (s : W4) (hs : Inv s) : Scalar.LE (Scalar.bytes s) = (Scalar.toZ s).val := by
+  rw [C08_bytes s hs]
+  apply Scalar.LE_LEbytes
+  have h1 : (Scalar.toZ s).val < L := ZMod.val_lt _
+  have h2 : L < 256^32 := by decide
+  omega
+
+/-- a 32-byte string is the little-endian encoding of its value -/
+theorem Scalar.LEbytes_LE (x : Bytes) (hs : x.size = 32) (hb : Scalar.IsBytes x) :
+    Scalar.LEbytes (Scalar.LE x) 32 = x := by
+  apply sc_bytes_ext _ _ 32 (Scalar.LEbytes_size _ _) hs
+  intro i hi
+  rw [Scalar.LEbytes_get _ _ _ hi, Scalar.LE_eq_leFrom, hs, Scalar.leFrom_byte x hb 32 i hi]
+
+/-! ### C08: `isReduced`, `SetCanonicalBytes` -/
+
+theorem Scalar.minusOne_isBytes : Scalar.IsBytes Fiat.scalarMinusOneBytes := by
+  intro i hi
+  have hi' : i < 32 := hi
+  interval_cases i <;> decide
+
+theorem Scalar.minusOne_value : Scalar.leFrom Fiat.scalarMinusOneBytes 0 32 = L - 1 := by
+  decide +kernel
+
+theorem isReduced_go_spec (x : Bytes) (hx : Scalar.IsBytes x) (i : Nat) :
+    Scalar.isReduced.go x i = true ↔ Scalar.leFrom x 0 i ≤ Scalar.leFrom Fiat.scalarMinusOneBytes 0 i := by
+  induction i with
+  | zero => simp [Scalar.isReduced.go, Scalar.leFrom]
+  | succ i ih =>
+    rw [Scalar.isReduced.go, Scalar.leFrom, Scalar.leFrom, Nat.zero_add]
+    have hX := Scalar.leFrom_lt x hx 0 i
+    have hM := Scalar.leFrom_lt _ Scalar.minusOne_isBytes 0 i
+    generalize Scalar.leFrom x 0 i = X at *
+    generalize Scalar.leFrom Fiat.scalarMinusOneBytes 0 i = M at *
+    generalize x[i]! = a at *
+    generalize Fiat.scalarMinusOneBytes[i]! = m at *
+    generalize 256^i = P at *
+    by_cases h1 : a > m
+    · rw [if_pos h1]
+      have : (m + 1) * P ≤ a * P := Nat.mul_le_mul_right _ h1
+      rw [Nat.add_mul, Nat.one_mul] at this
+      constructor
+      · intro h; exact Bool.noConfusion h
+      · intro h; omega
+    · rw [if_neg h1]
+      by_cases h2 : a < m
+      · rw [if_pos h2]
+        have : (a + 1) * P ≤ m * P := Nat.mul_le_mul_right _ h2
+        rw [Nat.add_mul, Nat.one_mul] at this
+        constructor
+        · intro _; omega
+        · intro _; rfl
+      · rw [if_neg h2, ih]
+        have : a = m := by omega
+        subst this
+        omega
+
+theorem C08_isReduced (x : Bytes) (hx : x.size = 32) (hb : Scalar.IsBytes x) :
+    Scalar.isReduced x = true ↔ Scalar.LE x < L := by
+  have h1 : Scalar.isReduced x = Scalar.isReduced.go x 32 := by
+    unfold Scalar.isReduced
+    simp [hx]
+  rw [h1, isReduced_go_spec x hb 32, Scalar.minusOne_value, Scalar.LE_eq_leFrom, hx]
+  have : 1 ≤ L := by decide
+  omega
+
+/-- `toZ` after `to_montgomery` is the plain value -/
+theorem toMont_toZ (o w : W4) (hw : Scalar.Words w) :
+    Inv (Fiat.fiatScalarToMontgomery o w) ∧
+      Scalar.toZ (Fiat.fiatScalarToMontgomery o w) = (eval w : ZMod L) := by
+  obtain ⟨ri, re⟩ := toMontgomery_spec' o w hw
+  refine ⟨ri, ?_⟩
+  have h' := sc_natCast_of_mod_eq re
+  rw [Nat.cast_mul] at h'
+  unfold Scalar.toZ
+  rw [h']
+  exact mul_inv_cancel_right₀ Scalar.R_ne_zero _
+
+theorem C08_canonical_ok (x : Bytes) (hs : x.size = 32) (hb : Scalar.IsBytes x) (hlt : Scalar.LE x < L) :
+    ∃ s, Scalar.setCanonicalBytes x = .ok s ∧ Inv s ∧ Scalar.toZ s = (Scalar.LE x : ZMod L) ∧
+      Scalar.bytes s = x := by
+  obtain ⟨fw, fe⟩ := fromBytes_spec Scalar.rz x hs (by rw [← hs]; exact hb)
+  obtain ⟨ti, te⟩ := toMont_toZ (Fiat.fiatScalarFromBytes Scalar.rz x) _ fw
+  refine ⟨_, ?_, ti, by rw [te, fe], ?_⟩
+  · unfold Scalar.setCanonicalBytes
+    simp [hs, (C08_isReduced x hs hb).2 hlt]
+  · rw [C08_bytes _ ti, te, fe, ZMod.val_natCast, Nat.mod_eq_of_lt hlt]
+    exact Scalar.LEbytes_LE x hs hb
+
+theorem C08_canonical_err (x : Bytes) (hb : Scalar.IsBytes x) (h : ¬ (x.size = 32 ∧ Scalar.LE x < L)) :
+    Scalar.setCanonicalBytes x = .err := by
+  unfold Scalar.setCanonicalBytes
+  by_cases hs : x.size = 32
+  · have hr : ¬ (Scalar.isReduced x = true) := fun hr => h ⟨hs, (C08_isReduced x hs hb).1 hr⟩
+    simp [hs, hr]
+  · simp [hs]
+
+theorem C08_canonical (x : Bytes) (hb : Scalar.IsBytes x) :
+    (∃ s, Scalar.setCanonicalBytes x = .ok s) ↔ x.size = 32 ∧ Scalar.LE x < L := by
+  constructor
+  · rintro ⟨s, hs⟩
+    by_contra h
+    rw [C08_canonical_err x hb h] at hs
+    cases hs
+  · rintro ⟨hs, hlt⟩
+    obtain ⟨s, h, _⟩ := C08_canonical_ok x hs hb hlt
+    exact ⟨s, h⟩
+
+
+/-! ### C08: `SetUniformBytes` -/
+
+theorem sc_copyInto_size (n : Nat) (x : Bytes) : (Scalar.copyInto n x).size = n := by
+  simp [Scalar.copyInto]
+
+theorem sc_copyInto_get (n : Nat) (x : Bytes) (i : Nat) (hi : i < n) : (Scalar.copyInto n x)[i]! = x[i]! := by
+  have h : i < (Scalar.copyInto n x).size := by rw [sc_copyInto_size]; exact hi
+  rw [getElem!_pos _ i h]
+  simp only [Scalar.copyInto, Array.getElem_map, List.getElem_toArray, List.getElem_range]
+  split
+  · rfl
+  · rw [sc_getElem!_beyond x i (by omega)]
+
+theorem sc_copyInto_isBytes (n : Nat) (x : Bytes) (hb : Scalar.IsBytes x) : Scalar.IsBytes (Scalar.copyInto n x) := by
+  intro i hi
+  rw [sc_copyInto_size] at hi
+  rw [sc_copyInto_get n x i hi]
+  exact Scalar.isBytes_all hb i
+
+theorem sc_copyInto_LE (n : Nat) (x : Bytes) (h : x.size ≤ n) : Scalar.LE (Scalar.copyInto n x) = Scalar.LE x := by
+  rw [Scalar.LE_eq_leFrom, Scalar.LE_eq_leFrom, sc_copyInto_size, ← Scalar.leFrom_extend x n h]
+  apply Scalar.leFrom_congr
+  intro i hi
+  rw [Nat.zero_add]
+  exact sc_copyInto_get n x i hi
+
+theorem sc_slice_size (x : Bytes) (a b : Nat) (hb : b ≤ x.size) : (Bin.slice x a b).size = b - a := by
+  simp [Bin.slice, Nat.min_eq_left hb]
+
+theorem sc_slice_get (x : Bytes) (a b i : Nat) (hb : b ≤ x.size) (hi : a + i < b) :
+    (Bin.slice x a b)[i]! = x[a + i]! := by
+  have h : i < (Bin.slice x a b).size := by rw [sc_slice_size x a b hb]; omega
+  rw [getElem!_pos _ i h, getElem!_pos x (a + i) (by omega)]
+  simp [Bin.slice]
+
+theorem sc_slice_isBytes (x : Bytes) (a b : Nat) (hb : b ≤ x.size) (hx : Scalar.IsBytes x) :
+    Scalar.IsBytes (Bin.slice x a b) := by
+  intro i hi
+  rw [sc_slice_size x a b hb] at hi
+  rw [sc_slice_get x a b i hb (by omega)]
+  exact Scalar.isBytes_all hx _
+
+theorem sc_slice_LE (x : Bytes) (a b : Nat) (hb : b ≤ x.size) :
+    Scalar.LE (Bin.slice x a b) = Scalar.leFrom x a (b - a) := by
+  rw [Scalar.LE_eq_leFrom, sc_slice_size x a b hb]
+  apply Scalar.leFrom_congr
+  intro i hi
+  rw [Nat.zero_add]
+  exact sc_slice_get x a b i hb (by omega)
+
+theorem setShortBytes_spec (y : Bytes) (hy : y.size < 32) (hb : Scalar.IsBytes y) :
+    ∃ s, Scalar.setShortBytes y = .ok s ∧ Inv s ∧ Scalar.toZ s = (Scalar.LE y : ZMod L) := by
+  have hc := sc_copyInto_isBytes 32 y hb
+  obtain ⟨fw, fe⟩ := fromBytes_spec Scalar.rz (Scalar.copyInto 32 y) (sc_copyInto_size _ _)
+    (by have := hc; rw [Scalar.IsBytes, sc_copyInto_size] at this; exact this)
+  obtain ⟨ti, te⟩ := toMont_toZ (Fiat.fiatScalarFromBytes Scalar.rz (Scalar.copyInto 32 y)) _ fw
+  refine ⟨_, ?_, ti, by rw [te, fe, sc_copyInto_LE 32 y (by omega)]⟩
+  unfold Scalar.setShortBytes
+  simp [Nat.not_le.2 hy]
+
+theorem two168_spec : Inv Fiat.scalarTwo168 ∧ Scalar.toZ Fiat.scalarTwo168 = ((2^168 : Nat) : ZMod L) := by
+  have hi : Inv Fiat.scalarTwo168 := by
+    refine ⟨?_, ?_, ?_, ?_, ?_⟩ <;> decide
+  refine ⟨hi, ?_⟩
+  have h : eval Fiat.scalarTwo168 % L = (2^168 * 2^256) % L := by decide
+  have h' := sc_natCast_of_mod_eq h
+  rw [Nat.cast_mul] at h'
+  unfold Scalar.toZ
+  rw [h']
+  exact mul_inv_cancel_right₀ Scalar.R_ne_zero _
+
+set_option exponentiation.threshold 600 in
+theorem two336_spec : Inv Fiat.scalarTwo336 ∧ Scalar.toZ Fiat.scalarTwo336 = ((2^336 : Nat) : ZMod L) := by
+  have hi : Inv Fiat.scalarTwo336 := by
+    refine ⟨?_, ?_, ?_, ?_, ?_⟩ <;> decide
+  refine ⟨hi, ?_⟩
+  have h : eval Fiat.scalarTwo336 % L = (2^336 * 2^256) % L := by decide
+  have h' := sc_natCast_of_mod_eq h
+  rw [Nat.cast_mul] at h'
+  unfold Scalar.toZ
+  rw [h']
+  exact mul_inv_cancel_right₀ Scalar.R_ne_zero _
+
+set_option exponentiation.threshold 600 in
+theorem C08_uniform (x : Bytes) (hx : x.size = 64) (hb : Scalar.IsBytes x) :
+    ∃ s, Scalar.setUniformBytes x = .ok s ∧ Inv s ∧ Scalar.toZ s = (Scalar.LE x : ZMod L) := by
+  obtain ⟨s0, e0, i0, z0⟩ := setShortBytes_spec (Bin.slice x 0 21)
+    (by rw [sc_slice_size x 0 21 (by omega)]; norm_num) (sc_slice_isBytes x 0 21 (by omega) hb)
+  obtain ⟨s1, e1, i1, z1⟩ := setShortBytes_spec (Bin.slice x 21 42)
+    (by rw [sc_slice_size x 21 42 (by omega)]; norm_num) (sc_slice_isBytes x 21 42 (by omega) hb)
+  obtain ⟨s2, e2, i2, z2⟩ := setShortBytes_spec (Bin.slice x 42 x.size)
+    (by rw [sc_slice_size x 42 x.size (by omega), hx]; norm_num) (sc_slice_isBytes x 42 x.size (by omega) hb)
+  obtain ⟨m1i, m1e⟩ := C07_mul s1 _ i1 two168_spec.1
+  obtain ⟨a1i, a1e⟩ := C07_add s0 _ i0 m1i
+  obtain ⟨m2i, m2e⟩ := C07_mul s2 _ i2 two336_spec.1
+  obtain ⟨a2i, a2e⟩ := C07_add _ _ a1i m2i
+  refine ⟨_, ?_, a2i, ?_⟩
+  · unfold Scalar.setUniformBytes
+    simp only [hx, bne_self_eq_false, Bool.false_eq_true, if_false]
+    rw [← hx, e0, e1, e2]
+  · rw [a2e, a1e, m1e, m2e, z0, z1, z2, two168_spec.2, two336_spec.2,
+      sc_slice_LE x 0 21 (by omega), sc_slice_LE x 21 42 (by omega), sc_slice_LE x 42 x.size (by omega),
+      Scalar.LE_eq_leFrom, hx]
+    have e : Scalar.leFrom x 0 64 =
+        Scalar.leFrom x 0 (21 - 0) + Scalar.leFrom x 21 (42 - 21) * 2^168 + Scalar.leFrom x 42 (64 - 42) * 2^336 := by
+      have h1 : Scalar.leFrom x 0 64 = Scalar.leFrom x 0 21 + 256^21 * Scalar.leFrom x 21 43 := Scalar.leFrom_split x 0 21 43
+      have h2 : Scalar.leFrom x 21 43 = Scalar.leFrom x 21 21 + 256^21 * Scalar.leFrom x 42 22 := Scalar.leFrom_split x 21 21 22
+      have p1 : (256 : Nat)^21 = 2^168 := by decide
+      have p2 : (2 : Nat)^336 = 2^168 * 2^168 := by rw [← pow_add]
+      show _ = Scalar.leFrom x 0 21 + Scalar.leFrom x 21 21 * 2^168 + Scalar.leFrom x 42 22 * 2^336
+      rw [h1, h2, p1, p2]
+      ring
+    rw [e]
+    push_cast
+    ring
+
+theorem C08_uniform_err (x : Bytes) : Scalar.setUniformBytes x = .err ↔ x.size ≠ 64 := by
+  constructor
+  · intro h hx
+    -- for 64 bytes the three chunks are short, so the result is `ok` or `panic`-free
+    unfold Scalar.setUniformBytes at h
+    simp only [hx, bne_self_eq_false, Bool.false_eq_true, if_false] at h
+    have l0 : (Bin.slice x 0 21).size < 32 := by rw [sc_slice_size x 0 21 (by omega)]; norm_num
+    have l1 : (Bin.slice x 21 42).size < 32 := by rw [sc_slice_size x 21 42 (by omega)]; norm_num
+    have l2 : (Bin.slice x 42 64).size < 32 := by rw [sc_slice_size x 42 64 (by omega)]; norm_num
+    simp only [Scalar.setShortBytes, Nat.not_le.2 l0, Nat.not_le.2 l1, Nat.not_le.2 l2, if_false] at h
+    cases h
+  · intro hx
+    unfold Scalar.setUniformBytes
+    simp [hx]
+
+
+/-! ### C08: `SetBytesWithClamping` -/
+
+/-- RFC 8032 clamping on the 32 input bytes -/
+def Scalar.clampBytes (x : Bytes) : Bytes :=
+  (x.set! 0 (x[0]! &&& 248)).set! 31 ((x[31]! &&& 63) ||| 64)
+
+/-- clamping as arithmetic on the little-endian value: clear bits 0,1,2 and 255, set bit 254 -/
+def Scalar.clamp (n : Nat) : Nat := n % 2^254 - n % 8 + 2^254
+
+theorem Scalar.clamp_formula (n : Nat) (hn : n < 2^256) :
+    Scalar.clamp n = n - n % 8 - (n / 2^254 % 4) * 2^254 + 2^254 := by
+  unfold Scalar.clamp
+  omega
+
+/-- the 64-byte buffer handed to `SetUniformBytes` -/
+def Scalar.clampWide (x : Bytes) : Bytes :=
+  let wide := Scalar.copyInto 64 x
+  let wide := wide.set! 0 (wide[0]! &&& 248)
+  let wide := wide.set! 31 (wide[31]! &&& 63)
+  wide.set! 31 (wide[31]! ||| 64)
+
+theorem setBytesWithClamping_eq (x : Bytes) (hx : x.size = 32) :
+    Scalar.setBytesWithClamping x = Scalar.setUniformBytes (Scalar.clampWide x) := by
+  unfold Scalar.setBytesWithClamping Scalar.clampWide
+  simp [hx]
+
+theorem sc_and248 : ∀ b, b < 256 → b &&& 248 = b - b % 8 := by decide +kernel
+theorem sc_and63or64 : ∀ b, b < 256 → (b &&& 63) ||| 64 = b % 64 + 64 := by decide +kernel
+
+theorem Scalar.clampWide_size (x : Bytes) : (Scalar.clampWide x).size = 64 := by
+  simp [Scalar.clampWide, sc_copyInto_size]
+
+theorem Scalar.clampWide_get (x : Bytes) (j : Nat) :
+    (Scalar.clampWide x)[j]! =
+      if j = 0 then x[0]! &&& 248 else if j = 31 then (x[31]! &&& 63) ||| 64
+      else if j < 64 then x[j]! else 0 := by
+  have hs := sc_copyInto_size 64 x
+  simp only [Scalar.clampWide, sc_getElem!_set!, sc_size_set!, hs]
+  have c0 := sc_copyInto_get 64 x 0 (by norm_num)
+  have c31 := sc_copyInto_get 64 x 31 (by norm_num)
+  by_cases h0 : j = 0
+  · subst h0; simp [c0]
+  · by_cases h31 : j = 31
+    · subst h31; simp [c31]
+    · have e1 : ¬ (31 = j ∧ 31 < 64) := fun h => h31 h.1.symm
+      have e2 : ¬ (0 = j ∧ 0 < 64) := fun h => h0 h.1.symm
+      simp only [e1, e2, if_false, h0, h31]
+      by_cases hj : j < 64
+      · rw [if_pos hj, sc_copyInto_get 64 x j hj]
+      · rw [if_neg hj, sc_getElem!_beyond _ j (by rw [hs]; omega)]
+
+theorem Scalar.clampWide_isBytes (x : Bytes) (hb : Scalar.IsBytes x) : Scalar.IsBytes (Scalar.clampWide x) := by
+  intro j _
+  rw [Scalar.clampWide_get]
+  have b0 := Scalar.isBytes_all hb 0
+  have b31 := Scalar.isBytes_all hb 31
+  have bj := Scalar.isBytes_all hb j
+  split
+  · rw [sc_and248 _ b0]; omega
+  · split
+    · rw [sc_and63or64 _ b31]; omega
+    · split
+      · exact bj
+      · norm_num
+
+theorem Scalar.clamp_arith (x0 M x31 P : Nat) (hP : P = 1766847064778384329583297500742918515827483896875618958121606201292619776)
+    (h0 : x0 < 256) (hM : M < P) (_h31 : x31 < 256) :
+    (x0 - x0 % 8) + 256 * (M + (x31 % 64 + 64) * P) =
+      (x0 + 256 * (M + x31 * P)) % 2^254 - (x0 + 256 * (M + x31 * P)) % 8 + 2^254 := by
+  subst hP
+  omega
+
+theorem Scalar.le32_decomp (b : Bytes) : Scalar.leFrom b 0 32 = b[0]! + 256 * (Scalar.leFrom b 1 30 + b[31]! * 256^30) := by
+  have h1 : Scalar.leFrom b 0 (31 + 1) = b[0]! + 256 * Scalar.leFrom b (0 + 1) 31 := Scalar.leFrom_succ' b 0 31
+  have h2 : Scalar.leFrom b 1 (30 + 1) = Scalar.leFrom b 1 30 + b[1 + 30]! * 256^30 := rfl
+  exact h1.trans (by rw [Nat.zero_add, h2])
+
+/-- any 32 bytes `w` obtained from `x` by the three clamping operations -/
+theorem Scalar.clamp_core (x w : Bytes) (hb : Scalar.IsBytes x) (g0 : w[0]! = x[0]! &&& 248)
+    (g31 : w[31]! = (x[31]! &&& 63) ||| 64) (gm : ∀ i, i < 30 → w[1 + i]! = x[1 + i]!) :
+    Scalar.leFrom w 0 32 = Scalar.clamp (Scalar.leFrom x 0 32) := by
+  rw [Scalar.le32_decomp, Scalar.le32_decomp x, Scalar.leFrom_congr w x 1 1 30 gm]
+  have b0 := Scalar.isBytes_all hb 0
+  have b31 := Scalar.isBytes_all hb 31
+  rw [g0, g31, sc_and248 _ b0, sc_and63or64 _ b31]
+  exact Scalar.clamp_arith _ _ _ _ (by norm_num) b0 (Scalar.leFrom_lt x hb 1 30) b31
+
+theorem Scalar.clampWide_LE (x : Bytes) (hx : x.size = 32) (hb : Scalar.IsBytes x) :
+    Scalar.LE (Scalar.clampWide x) = Scalar.clamp (Scalar.LE x) := by
+  rw [Scalar.LE_eq_leFrom, Scalar.LE_eq_leFrom, Scalar.clampWide_size, hx]
+  have hsplit : Scalar.leFrom (Scalar.clampWide x) 0 (32 + 32) =
+      Scalar.leFrom (Scalar.clampWide x) 0 32 + 256^32 * Scalar.leFrom (Scalar.clampWide x) (0 + 32) 32 :=
+    Scalar.leFrom_split _ 0 32 32
+  have hz : Scalar.leFrom (Scalar.clampWide x) (0 + 32) 32 = 0 := by
+    have : ∀ n, n ≤ 32 → Scalar.leFrom (Scalar.clampWide x) (0 + 32) n = 0 := by
+      intro n
+      induction n with
+      | zero => intro _; rfl
+      | succ n ih =>
+        intro hn
+        rw [Scalar.leFrom, ih (by omega), Scalar.clampWide_get]
+        have h1 : ¬ (0 + 32 + n = 0) := by omega
+        have h2 : ¬ (0 + 32 + n = 31) := by omega
+        have h3 : 0 + 32 + n < 64 := by omega
+        rw [if_neg h1, if_neg h2, if_pos h3, sc_getElem!_beyond x _ (by omega), Nat.zero_mul]
+    exact this 32 (Nat.le_refl 32)
+  have h64 : Scalar.leFrom (Scalar.clampWide x) 0 64 = Scalar.leFrom (Scalar.clampWide x) 0 32 := by
+    rw [show (64 : Nat) = 32 + 32 from rfl, hsplit, hz, Nat.mul_zero, Nat.add_zero]
+  rw [h64]
+  apply Scalar.clamp_core x _ hb
+  · rw [Scalar.clampWide_get]; simp
+  · rw [Scalar.clampWide_get]; simp
+  · intro i hi
+    rw [Scalar.clampWide_get]
+    have h1 : ¬ (1 + i = 0) := by omega
+    have h2 : ¬ (1 + i = 31) := by omega
+    have h3 : 1 + i < 64 := by omega
+    rw [if_neg h1, if_neg h2, if_pos h3]
+
+theorem Scalar.clampBytes_LE (x : Bytes) (hx : x.size = 32) (hb : Scalar.IsBytes x) :
+    Scalar.LE (Scalar.clampBytes x) = Scalar.clamp (Scalar.LE x) := by
+  have hs : (Scalar.clampBytes x).size = 32 := by simp [Scalar.clampBytes, hx]
+  rw [Scalar.LE_eq_leFrom, Scalar.LE_eq_leFrom, hs, hx]
+  apply Scalar.clamp_core x _ hb
+  · simp [Scalar.clampBytes, hx]
+  · simp [Scalar.clampBytes, hx]
+  · intro i hi
+    have h1 : ¬ (0 = 1 + i) := by omega
+    have h2 : ¬ (31 = 1 + i) := by omega
+    simp only [Scalar.clampBytes, sc_getElem!_set!]
+    rw [if_neg (fun h => h2 h.1), if_neg (fun h => h1 h.1)]
+
+theorem C08_clamp (x : Bytes) (hx : x.size = 32) (hb : Scalar.IsBytes x) :
+    ∃ s, Scalar.setBytesWithClamping x = .ok s ∧ Inv s ∧
+      Scalar.toZ s = (Scalar.clamp (Scalar.LE x) : ZMod L) := by
+  obtain ⟨s, e, i, z⟩ := C08_uniform (Scalar.clampWide x) (Scalar.clampWide_size x) (Scalar.clampWide_isBytes x hb)
+  exact ⟨s, by rw [setBytesWithClamping_eq x hx]; exact e, i, by rw [z, Scalar.clampWide_LE x hx hb]⟩
+
+theorem C08_clamp_bytes (x : Bytes) (hx : x.size = 32) (hb : Scalar.IsBytes x) :
+    ∃ s, Scalar.setBytesWithClamping x = .ok s ∧ Inv s ∧
+      Scalar.toZ s = (Scalar.LE (Scalar.clampBytes x) : ZMod L) := by
+  rw [Scalar.clampBytes_LE x hx hb]
+  exact C08_clamp x hx hb
+
+theorem C08_clamp_err (x : Bytes) (hx : x.size ≠ 32) : Scalar.setBytesWithClamping x = .err := by
+  unfold Scalar.setBytesWithClamping
+  simp [hx]
+
+
+/-! ### interface for the API layer (`Inv` closure of every scalar operation) -/
+
+theorem ScalarFacts_rz : Inv Scalar.rz := C07_zero.1
+theorem ScalarFacts_add (x y : W4) (hx : Inv x) (hy : Inv y) : Inv (Scalar.add x y) := (C07_add x y hx hy).1
+theorem ScalarFacts_sub (x y : W4) (hx : Inv x) (hy : Inv y) : Inv (Scalar.sub x y) := (C07_sub x y hx hy).1
+theorem ScalarFacts_neg (x : W4) (hx : Inv x) : Inv (Scalar.neg x) := (C07_neg x hx).1
+theorem ScalarFacts_mul (x y : W4) (hx : Inv x) (hy : Inv y) : Inv (Scalar.mul x y) := (C07_mul x y hx hy).1
+theorem ScalarFacts_multiplyAdd (x y z : W4) (hx : Inv x) (hy : Inv y) (hz : Inv z) :
+    Inv (Scalar.multiplyAdd x y z) := (C07_multiplyAdd x y z hx hy hz).1
+theorem ScalarFacts_invert (x : W4) (hx : Inv x) : Inv (Scalar.invert x) := (C07_invert x hx).1
+theorem ScalarFacts_bytes (x : W4) (hx : Inv x) : Scalar.IsBytes (Scalar.bytes x) := (C08_bytes_isBytes x hx).2
+theorem ScalarFacts_setUniformBytes_err (x : Bytes) : Scalar.setUniformBytes x = .err ↔ x.size ≠ 64 :=
+  C08_uniform_err x
+theorem ScalarFacts_setUniformBytes_ok (x : Bytes) (hx : x.size = 64) (hb : Scalar.IsBytes x) :
+    ∃ s, Scalar.setUniformBytes x = .ok s ∧ Inv s := by
+  obtain ⟨s, e, i, _⟩ := C08_uniform x hx hb
+  exact ⟨s, e, i⟩
+theorem ScalarFacts_setCanonicalBytes (x : Bytes) (hb : Scalar.IsBytes x) :
+    (∃ s, Scalar.setCanonicalBytes x = .ok s ∧ Inv s) ∨ Scalar.setCanonicalBytes x = .err := by
+  by_cases h : x.size = 32 ∧ Scalar.LE x < L
+  · obtain ⟨s, e, i, _⟩ := C08_canonical_ok x h.1 hb h.2
+    exact Or.inl ⟨s, e, i⟩
+  · exact Or.inr (C08_canonical_err x hb h)
+theorem ScalarFacts_setBytesWithClamping (x : Bytes) (hb : Scalar.IsBytes x) :
+    (∃ s, Scalar.setBytesWithClamping x = .ok s ∧ Inv s) ∨ Scalar.setBytesWithClamping x = .err := by
+  by_cases h : x.size = 32
+  · obtain ⟨s, e, i, _⟩ := C08_clamp x h hb
+    exact Or.inl ⟨s, e, i⟩
+  · exact Or.inr (C08_clamp_err x h)
 
 end EdVerif.Proofs
